@@ -130,7 +130,10 @@ CHECKS = {
                  "a?true:false, a?a:b, a?b:a, a?b:b, a?f(x):f(y), nested conditionals, !a?x:y, constant conditions, comma hoisting) evaluate to the same value "
                  "and leave the same store for EVERY expression, store and interpretation of calls / == / relational / arithmetic operators as arbitrary "
                  "state transformers (identifier reads effect-free: the minifier's own assumption); the one excluded shape (const_assign_hazard) is finding "
-                 "K118 on the real code; the call-merge defect K02 was found while writing this semantics and repaired. Ties: T-gen for maps, guards and "
+                 "K118 on the real code; the call-merge defect K02 was found while writing this semantics and repaired. WHOLE PIPELINE: the token model "
+                 "print_rw is emit of the as-written tree rw; that tree is parser-shaped at its position, so the tokens derive it in the grammar "
+                 "(pipeline_output_parses_back), and it evaluates like the input (pipeline_preserves_value_and_effects) — the proof of the middle step "
+                 "failed on the pinned code and exposed K119 ((l,!(a&&b))&&f() written as l,!a||!b&&f()), repaired in /repo. Ties: T-gen for maps, guards and "
                  "sites + the extracted print / print_rw must reproduce the token sequence of the real js.Minify on 6,000 operator expressions and 6,000 "
                  "rewrite-fragment expressions per run (a disagreement is handed to node as a program). PARTIAL: statement-level rewrites, literals, "
                  "hoisting, dead code, classes etc. are decided by search only: 1,500 generated programs per quick run executed in node 20 (vm) before and "
